@@ -34,6 +34,12 @@ impl Rng {
   pub fn chance(&mut self, num: usize, den: usize) -> bool {
     self.below(den) < num
   }
+  pub fn shuffle<T>(&mut self, xs: &mut [T]) {
+    for i in (1..xs.len()).rev() {
+      let j = self.below(i + 1);
+      xs.swap(i, j);
+    }
+  }
   pub fn pick<'a, T>(&mut self, xs: &'a [T]) -> &'a T {
     &xs[self.below(xs.len())]
   }
